@@ -553,7 +553,11 @@ class Evaluator(object):
         if isinstance(f, Builtin):
             return self._call_builtin(f, args, kwargs)
         if isinstance(f, Ext):
-            if f.name.split('.')[0] in ('warnings', 'logging') or f.name.split('.')[-1] in ('debug', 'info', 'warning', 'warn'):
+            if f.name in ('logging.getLogger', 'logging.Logger.getChild', 'logging.LoggerAdapter') or \
+                    (f.name.startswith('logging.Logger') and f.name.split('.')[-1] == 'getChild'):
+                return Ext('logging.Logger')     # a logger handle (module / class attribute): its methods are diagnostics
+            if f.name.split('.')[0] in ('warnings', 'logging') or f.name.split('.')[-1] in ('debug', 'info', 'warning', 'warn', 'error', 'exception',
+                                                                                             'critical', 'log'):
                 return None          # diagnostics do not contribute to any value computed here
             raise NoEval('call of %s (outside the analysed package) is not modelled' % f.name)
         if isinstance(f, Obj):
